@@ -459,20 +459,19 @@ class GBNFCompiler:
         # Try to preserve simple patterns
         # Handle [a-z]+, [A-Z]+, [0-9]+, etc.
         simple_char_class = re.match(r"^\[([^\]]+)\]([+*?]?)$", pattern)
-        if simple_char_class:
+        if simple_char_class and "\\" not in simple_char_class.group(1):
             char_class = simple_char_class.group(1)
             quantifier = simple_char_class.group(2) or "+"
             return f"[{char_class}]{quantifier}"
 
-        # For more complex patterns, create a safe approximation
-        # Replace . with [^\\n], preserve quantifiers
-        result = pattern.replace(".", "[^\\n]")
+        # "." with an optional quantifier has a direct GBNF equivalent
+        if pattern in (".", ".+", ".*", ".?"):
+            return pattern.replace(".", "[^\\n]")
 
-        # If result is empty or just quantifiers, use permissive
-        if not result or result in ["+", "*", "?"]:
-            return "[^\\n]+"
-
-        return result
+        # Anything else is regex syntax, not GBNF syntax: pasting it would yield undefined rule
+        # references ("abc") or text that does not parse.  Degrade to the permissive pattern; the
+        # REGEX constraint itself is still enforced by the validator after generation.
+        return "[^\\n]+"
 
     def _compile_dir(self) -> str:
         """Compile DIR constraint to path pattern."""
